@@ -253,6 +253,7 @@ theorem IInv.apply {K IK : Bytes → Prop} (hK : WFKeys K) (mode : CacheKeying) 
   | purgeCache => exact same _ rfl rfl hi.pend
   | getBlock vw h hdr => exact same _ rfl rfl hi.pend
   | getQC vw h => exact same _ rfl rfl hi.pend
+  | getBlocks vw pn pp => exact same _ rfl rfl hi.pend
   | indexQC h bh =>
     refine same _ rfl rfl ?_
     intro e he
